@@ -10,6 +10,8 @@ pub mod lsp;
 pub mod lsp_project;
 pub mod project;
 mod source;
+#[cfg(feature = "verif")]
+pub mod verif;
 
 #[cfg(test)]
 mod test_helpers;
